@@ -1279,3 +1279,201 @@ def check_float_total_order(rep, g):
         if not any(c['kind'] == 'is_finite' and c['truth'] is True for c in chks):
             ok = False
     rep.ob('R-FINITE', ok, g, 'every accepting path of try_new passed is_finite() on the stored value', {})
+
+
+# ----------------------------------------------------------------------------- C05 structural rules
+
+FORBIDDEN_TRAITS = ('ops::DerefMut', 'ops::deref::DerefMut', 'convert::AsMut', 'borrow::BorrowMut', 'ops::IndexMut', 'ops::index::IndexMut')
+
+
+def place_types(F, fn_body, p):
+    """yield (type index before the projection, projection) along a place"""
+    ti = fn_body['locals'][p['l']]
+    for pr in p['p']:
+        yield ti, pr
+        if pr == '*':
+            t = F.ty(ti)
+            ti = t.get('t', ti)
+        elif isinstance(pr, dict) and 'f' in pr:
+            ti = pr['t']
+    yield ti, None
+
+
+def touches_field_of(F, body, p, adt_lids):
+    """does the place project into a field of one of the given ADTs? returns the adt lid or None"""
+    for ti, pr in place_types(F, body, p):
+        if pr is None:
+            break
+        if isinstance(pr, dict) and 'f' in pr:
+            t = F.ty(ti)
+            if t['k'] == 'adt' and t.get('lid') in adt_lids:
+                return t['lid']
+    return None
+
+
+def scan_body_sites(F, fn, body, adt_lids, sites):
+    for bi, blk in enumerate(body['blocks']):
+        for s in blk['stmts']:
+            if s['s'] != 'assign':
+                continue
+            rv = s['rv']
+            if rv['r'] == 'agg' and rv.get('kind') == 'adt' and rv.get('lid') in adt_lids:
+                sites.append(('construct', rv['lid'], fn['lid'], bi, s['sp']))
+            if rv['r'] == 'ref' and rv['mut']:
+                a = touches_field_of(F, body, rv['p'], adt_lids)
+                if a is not None:
+                    sites.append(('mut-borrow-field', a, fn['lid'], bi, s['sp']))
+            if rv['r'] == 'rawptr':
+                a = touches_field_of(F, body, rv['p'], adt_lids)
+                if a is not None:
+                    sites.append(('rawptr-field', a, fn['lid'], bi, s['sp']))
+            if rv['r'] == 'cast' and rv['kind'] == 'Transmute':
+                t = F.ty(rv['ty'])
+                if t['k'] == 'adt' and t.get('lid') in adt_lids:
+                    sites.append(('transmute', t['lid'], fn['lid'], bi, s['sp']))
+            a = touches_field_of(F, body, s['p'], adt_lids) if s['p']['p'] else None
+            if a is not None:
+                sites.append(('store-field', a, fn['lid'], bi, s['sp']))
+        t = blk['term']
+        if t['t'] == 'call' and 'fn' in t['f']:
+            c = t['f']['fn']
+            if c.get('ctor') and c['ctor'].get('lid') in adt_lids:
+                sites.append(('construct', c['ctor']['lid'], fn['lid'], bi, t['sp']))
+            if not c.get('safe', True) and c.get('lid') is not None:
+                sites.append(('unsafe-local-call', c['lid'], fn['lid'], bi, t['sp']))
+        # operands that mention the constructor as a function value (e.g. `.map(T)`)
+        def ops_of(t):
+            if t['t'] == 'call':
+                return t['args']
+            return []
+        for o in ops_of(t):
+            k = o.get('k')
+            if k and 'fn' in k and k['fn'].get('ctor') and k['fn']['ctor'].get('lid') in adt_lids:
+                sites.append(('construct', k['fn']['ctor']['lid'], fn['lid'], bi, t['sp']))
+        for s in blk['stmts']:
+            if s['s'] == 'assign' and s['rv']['r'] == 'use':
+                k = s['rv']['o'].get('k')
+                if k and 'fn' in k and k['fn'].get('ctor') and k['fn']['ctor'].get('lid') in adt_lids:
+                    sites.append(('construct', k['fn']['ctor']['lid'], fn['lid'], bi, s['sp']))
+
+
+def check_ctor_sites(rep, F, gens):
+    """R-CTOR: who may construct / mutate a newtype, over every body of the crate"""
+    by_adt = {g.adt['lid']: g for g in gens if g.adt is not None}
+    adt_lids = set(by_adt)
+    sites = []
+    for fn in F.fns.values():
+        scan_body_sites(F, fn, fn, adt_lids, sites)
+        for pb in fn.get('promoted', []):
+            scan_body_sites(F, fn, pb, adt_lids, sites)
+    counts = Counter()
+    for (kind, adt, fl, bi, sp) in sites:
+        fn = F.fns[fl]
+        if kind == 'unsafe-local-call':
+            callee = F.fns.get(adt)
+            # generated code must not call an unsafe generated fn (new_unchecked)
+            if callee is not None and '__nutype_' in callee['path'] and '__nutype_' in fn['path']:
+                g = None
+                for gg in gens:
+                    if gg.modpath and fn['module'].startswith(gg.modpath):
+                        g = gg
+                rep.ob('R-CTOR', False, g or gens[0], f'generated fn `{fn["path"]}` calls unsafe generated fn `{callee["path"]}`', {'span': sp})
+            continue
+        g = by_adt[adt]
+        name = fn.get('name')
+        ctor = g.ctor()
+        allowed = None
+        if kind == 'construct':
+            if ctor is not None and fl == ctor['lid']:
+                allowed = 'ctor'
+            elif name == 'new_unchecked' and fn['unsafe'] and g.d['new_unchecked'] and g.inherent_fn('new_unchecked') is not None \
+                    and g.inherent_fn('new_unchecked')['lid'] == fl:
+                allowed = 'new_unchecked'
+            elif name == 'clone' and any(g.impl_fn(i, 'clone') is not None and g.impl_fn(i, 'clone')['lid'] == fl
+                                         for i in g.trait_impls('clone::Clone')):
+                allowed = 'clone'
+        counts[(kind, allowed or 'OTHER')] += 1
+        rep.ob('R-CTOR', allowed is not None, g,
+               f'{kind} of T in `{fn.get("name")}` ({fn["path"].split("::")[-2] if "::" in fn["path"] else ""}) is an allowed site (constructor / flagged unsafe new_unchecked / derived clone)',
+               {'fn': fn['path'], 'span': sp, 'kind': kind})
+    return counts
+
+
+def check_no_bypass(rep, g):
+    """R-MUT / R-IMPLSET / R-VIS / new_unchecked discipline for one declaration"""
+    d = g.d
+    F = g.F
+    # --- field & module visibility
+    fld = g.adt['variants'][0]['fields']
+    rep.ob('R-VIS', len(fld) == 1 and fld[0]['vis'] == 'in:' + g.modpath, g, 'the single field is private to the generated module', {'vis': [f['vis'] for f in fld]})
+    parent = '::'.join(g.modpath.split('::')[:-1])
+    want_mod_vis = 'crate' if not parent else 'in:' + parent
+    rep.ob('R-VIS', g.mod['vis'] == want_mod_vis, g, 'the generated module is private to the declaring module', {'vis': g.mod['vis']})
+    exp = {'pub': 'pub', '': want_mod_vis, 'pub(crate)': 'crate', 'pub(self)': want_mod_vis}.get(d['vis'])
+    allowed_names = {g.name, g.name + 'Error', g.name + 'ParseError'}
+    seen = set()
+    for u in F.uses:
+        for t in u['targets']:
+            if t['path'].startswith(g.modpath + '::'):
+                nm = t['path'][len(g.modpath) + 2:]
+                if u['module'].startswith(g.modpath):
+                    continue   # `use` inside the generated module itself
+                rep.ob('R-VIS', nm in allowed_names, g, f're-export `{nm}` is one of the type / error / parse-error names', {})
+                rep.ob('R-VIS', u['vis'] == exp, g, f're-export `{nm}` has exactly the declared visibility `{d["vis"] or "private"}`', {'got': u['vis'], 'want': exp})
+                seen.add(nm)
+    rep.ob('R-VIS', g.name in seen, g, 'the type is re-exported', {})
+    # --- impl set
+    for i in g.impls:
+        sk = g.self_kind(i)
+        tr = i.get('trait')
+        if sk is None:
+            continue
+        if tr:
+            bad = any(tr.endswith(x) for x in FORBIDDEN_TRAITS)
+            rep.ob('R-MUT', not bad, g, f'impl {tr} for {sk} is not a mutable-view trait', {})
+            if sk == '&mut T':
+                rep.ob('R-MUT', False, g, f'impl {tr} for &mut T exists', {})
+            if i.get('unsafe'):
+                rep.ob('R-MUT', tr.endswith('clone::TrivialClone'), g, f'unsafe impl {tr} is the derive(Copy, Clone) marker only', {})
+    # --- fn signatures: nothing hands out &mut to the value or takes &mut T
+    for fn in g.fns:
+        if fn['kind'] == 'Closure':
+            continue
+        rep.bodies.add(fn['lid'])
+        out = F.tys(fn['output'])
+        rep.ob('R-MUT', '&mut' not in out and '*mut' not in out, g, f'`{fn["name"]}` does not return a mutable reference/pointer', {'output': out})
+        for ti in fn['inputs']:
+            t = F.ty(ti)
+            if t['k'] == 'ref' and t['mut']:
+                u = F.ty(t['t'])
+                isT = u['k'] == 'adt' and u.get('lid') == g.adt['lid']
+                rep.ob('R-MUT', not isT, g, f'`{fn["name"]}` does not take &mut T', {})
+        if fn['unsafe']:
+            ok = fn['name'] == 'new_unchecked' and d['new_unchecked']
+            rep.ob('R-UNSAFE', ok, g, f'unsafe fn `{fn["name"]}` is new_unchecked of a flagged declaration', {})
+    nu = g.inherent_fn('new_unchecked')
+    rep.ob('R-UNSAFE', (nu is not None) == bool(d['new_unchecked']), g, 'new_unchecked exists iff the declaration carries the flag', {})
+    if nu is not None:
+        rep.ob('R-UNSAFE', nu['unsafe'], g, 'new_unchecked is an unsafe fn', {})
+    # every pub inherent fn is one of the documented entry points
+    for fn in g.inherent_fns():
+        if fn['vis'] == 'pub':
+            rep.ob('R-API', fn['name'] in ('try_new', 'new', 'into_inner', 'new_unchecked'), g, f'pub inherent fn `{fn["name"]}` is a documented entry point', {})
+    # every fn returning T (or Result<T, _>/Option<T>) has been classified: the constructor, a conversion
+    # proven equivalent to it, clone, default, arbitrary, new_unchecked
+    for fn in g.fns:
+        if fn['kind'] == 'Closure':
+            continue
+        out = F.ty(fn['output'])
+        def mentions_T(t, depth=0):
+            if depth > 4:
+                return False
+            if t['k'] == 'adt':
+                if t.get('lid') == g.adt['lid']:
+                    return True
+                return any(mentions_T(F.ty(a), depth + 1) for a in t.get('args', []) if isinstance(a, int))
+            return False
+        if mentions_T(out):
+            known = fn['name'] in ('try_new', 'new', 'new_unchecked', 'clone', 'default', 'arbitrary', 'try_from', 'from', 'from_str',
+                                   'deserialize', 'visit_newtype_struct', 'make')
+            rep.ob('R-API', known, g, f'fn `{fn["name"]}` producing T is a known entry point', {'path': fn['path']})
